@@ -480,6 +480,9 @@ def _run_driver(script: str, jobs: list, *, timeout: int = 600,
         except subprocess.TimeoutExpired:
             p.kill()
             out, _ = p.communicate()
+        for ln in out.decode('utf-8', 'replace').splitlines():
+            if ln.startswith('driver: unexpected exception'):
+                print('  ' + ln[:300])
         lines = rp.read_text(encoding='utf-8').splitlines() if rp.exists() else []
         for n, line in enumerate(lines):
             try:
